@@ -138,6 +138,33 @@ theorem C10_sharing_preserved (cfg : Cfg) (classes : List Bytes) (info : Info) (
   cases hr
   exact ⟨rfl, fun _ _ => Iff.rfl⟩
 
+/-- **Look-ups in a loaded hash array, keys that are not listeners**: an integer, string or constant-string key is
+    hashed the same way while loading and afterwards, so `array[key]` finds the loaded entry — for every hash function
+    and table length. -/
+theorem C10_lookup_after_load (hash : Value → Nat) (addr : Lbl → Nat) (tl : Nat) (k : Value)
+    (hk : ∀ s o, k ≠ .link 6 s o) : foundAfterLoad hash addr tl k = true := by
+  have h : keyHashAtLoad hash k = keyHashAfter hash addr k := by
+    unfold keyHashAtLoad keyHashAfter
+    split
+    · rename_i s o
+      exact absurd rfl (hk s o)
+    · rfl
+  simp [foundAfterLoad, h]
+
+/-- **Known finding G2 (as the code is)**: a Listener key is hashed as null while its entry is loaded; in a table with
+    more than one bucket a look-up afterwards searches the bucket of the listener's address and misses the entry
+    (unless that address happens to be a multiple of the table length).  Replayed on the real code on every run
+    (`corpus/C10/known-listener-key-lost.json`, signature `roundtrip:lost-key:listener-key`). -/
+theorem C10_known_listener_key_lost (hash : Value → Nat) (addr : Lbl → Nat) (tl : Nat) (s : Bool) (o : Lbl)
+    (ho : o ≠ 0) (ha : addr o % tl ≠ 0) : foundAfterLoad hash addr tl (.link 6 s o) = false := by
+  simp [foundAfterLoad, keyHashAtLoad, keyHashAfter, ho, Nat.zero_mod]
+  exact fun h => ha h.symm
+
+/-- in a one-bucket table (and for a null listener) the entry is found -/
+theorem C10_listener_key_one_bucket (hash : Value → Nat) (addr : Lbl → Nat) (s : Bool) (o : Lbl) :
+    foundAfterLoad hash addr 1 (.link 6 s o) = true := by
+  simp [foundAfterLoad, Nat.mod_one]
+
 /-! ### constant strings and the dictionary of the loading session (`StringDictionary::ArchiveString`) -/
 
 /-- **Any reading dictionary.**  A ConstString value is archived by its text and interned on load into the
